@@ -978,6 +978,12 @@ func parsePrinted(s string, pos int) (string, int, bool) {
 	switch {
 	case strings.HasPrefix(s[pos:], "<unknown>"):
 		return "<unknown>", pos + 9, true
+	case strings.HasPrefix(s[pos:], "NaN"):
+		return "NaN", pos + 3, true
+	case strings.HasPrefix(s[pos:], "+Inf"):
+		return "+Inf", pos + 4, true
+	case strings.HasPrefix(s[pos:], "-Inf"):
+		return "-Inf", pos + 4, true
 	case strings.HasPrefix(s[pos:], "null"):
 		return "null", pos + 4, true
 	case strings.HasPrefix(s[pos:], "true"):
